@@ -109,6 +109,14 @@ CHECKS = {
         "note": "Trusted: Keepalive.tla, TLC, tokio's paused clock (virtual time, one tick = one second), the scripted broker of the harness. A reply landing exactly on a timer tick is left undecided (both outcomes accepted).",
         "technique": "TLC model checking of a discrete-time TLA+ model + spec->impl replay of TLC-generated broker schedules with TLC trace validation of the recorded ticks",
     },
+    "C19": {
+        "bins": ["admission", "router_run"], "bins_small": ["router_run"],
+        "category": "model_checking",
+        "text": "Admission.tla is the decision table of a new network connection: first packet kind and protocol level x keep-alive x client-id class x clean flag x auth configuration (none / static / callback) x login (absent / wrong / right) x router occupancy -> accept / error CONNACK / silent close. TLC checks for all 5184 rows that the table implies what the property demands (Demanded) and enumerates the rows; every row (quick: all rows whose first packet arrives plus a seventh of the connect-timeout rows) is executed through the real remote() of server/broker.rs with a real router thread over an in-memory stream, and the observed outcome plus whether a later SUBSCRIBE/PUBLISH reaches a monitor subscriber is compared with the table. One-live-connection-per-client-id and live-connections-within-max are invariants of RouterSys.tla (SlabsAligned), model-checked over connect/disconnect/takeover histories with max_connections 1 and 2 and validated on traces of the real router.",
+        "design_ref": "DESIGN.md section 6 / C19",
+        "note": "Trusted: Admission.tla as the reading of the code's checks, TLC, the harness' classification of what the candidate reads back (250 ms window, real time). TLS client certificates, websockets and the bridge are not exercised.",
+        "technique": "TLA+ decision table enumerated by TLC and replayed row by row into the real admission path + TLC model checking and trace validation of the router's connection bookkeeping",
+    },
     "C12": {
         "bins": ["topics"],
         "category": "exploration",
